@@ -1,8 +1,35 @@
 """C18 - rational approximation functions return the optimal fraction they promise."""
 import math
+import os
 import struct
+import sys
 import core
 from core import hx, gen_mag
+
+# The ErrorBounds table (float/src/round.rs, six `impl ErrorBounds for mode::X`) is regenerated into
+# coq/gen/ErrorBoundsTable.v when this plug-in is imported, i.e. before the proof phase of every run
+# (tools/check.py has no hook between plug-in load and the Coq build; tools/translate.py is shared and
+# not ours to edit).  Theorem C18_error_bounds_table proves the hand-written as-is model equal to the
+# regenerated table.  Unparseable source is not an alarm: the committed copy stays (marked STALE), the
+# status is reported in the evidence by extra_phase, and the correspondence run alone ties the model.
+sys.path.insert(0, os.path.join(core.ROOT, "tools"))
+try:
+    import translate_c18
+    EB_TABLE_STATUS = translate_c18.generate(core.REPO, os.path.join(core.COQ, "gen"))
+except Exception as _ex:  # the generator itself broke: same fallback as an unparseable source
+    EB_TABLE_STATUS = "unparsed generator-failed: %s" % str(_ex)[:200]
+
+
+def extra_phase(tier, seed, exes, oracle):
+    word = EB_TABLE_STATUS.split(" ", 1)[0]
+    return {
+        "evaluations": 0,
+        "hist": {"translator_c18:ErrorBoundsTable:" + word: 1},
+        "nontrivial": [],
+        "samples": [{"fragment": "coq/gen/ErrorBoundsTable.v (tools/translate_c18.py from float/src/round.rs)", "status": EB_TABLE_STATUS,
+                     "tied_by": "C18_error_bounds_table" if word == "ok" else "correspondence run only (source not parsed; committed copy marked STALE)"}],
+        "failures": [],
+    }
 
 ID = "C18"
 READY = True
